@@ -707,8 +707,103 @@ func init() {
 	}
 }
 
+// wireIntegers: every integer a running conversation puts on the wire is in minimal form with a matching length,
+// also when it is short — the randomness source is scripted with tiny D-H exponents (and one ordinary run), so that
+// g^x and the next-key values are 1, 2, 5, 24, 191 and 192 bytes long
+func (x *c17Run) wireIntegers(seed int64) {
+	minimal := func(what string, b []byte) (rest []byte) {
+		if len(b) < 4 {
+			x.bad("wire-mpi:"+what, "%s: no room for an MPI length", what)
+			return nil
+		}
+		l := int(binary.BigEndian.Uint32(b))
+		if l > len(b)-4 {
+			x.bad("wire-mpi:"+what, "%s: MPI length %d beyond the data", what, l)
+			return nil
+		}
+		if l > 0 && b[4] == 0 {
+			x.bad("wire-mpi:"+what, "%s: integer emitted with a leading zero byte (length %d): not in minimal form", what, l)
+		}
+		x.tick(true)
+		return b[4+l:]
+	}
+	for _, v := range []int{3, 2} {
+		for _, tiny := range []bool{true, false} {
+			pol := verifPolFor(v)
+			w := verifNewPair(verifPairCfg{Seed: seed, PolA: pol, PolB: pol})
+			if tiny {
+				exps := [2][]int64{{39, 8, 3, 1, 7, 191}, {39, 191, 5, 2, 1, 8}}
+				for i := 0; i < 2; i++ {
+					for _, e := range exps[i] {
+						b := make([]byte, 40)
+						binary.BigEndian.PutUint64(b[32:], uint64(e))
+						w.P[i].R.Script = append(w.P[i].R.Script, b)
+					}
+				}
+			}
+			var all [][]byte
+			keep := func(_ int, _ []byte, r verifResult) { all = append(all, r.Out...) }
+			w.Q[1] = append(w.Q[1], w.P[0].Query())
+			w.deliverAll(30, keep)
+			for k := 0; k < 3; k++ {
+				for i := 0; i < 2; i++ {
+					r := w.P[i].Send([]byte("text"))
+					all = append(all, r.Out...)
+					w.push(i, r.Out)
+					w.deliverAll(10, keep)
+				}
+			}
+			var commits [][]byte
+			var rs [][]byte
+			for _, m := range all {
+				raw, err := decode(encodedMessage(m))
+				if err != nil || len(raw) < 3 {
+					continue
+				}
+				body := raw[3:]
+				if v == 3 {
+					if len(raw) < 11 {
+						continue
+					}
+					body = raw[11:]
+				}
+				switch raw[2] {
+				case msgTypeDHCommit:
+					_, enc, ok := ExtractData(body)
+					if ok {
+						commits = append(commits, enc)
+					}
+				case msgTypeDHKey:
+					minimal("D-H Key g^y", body)
+				case msgTypeRevealSig:
+					_, r, ok := ExtractData(body)
+					if ok {
+						rs = append(rs, r)
+					}
+				case msgTypeData:
+					if len(body) > 9 {
+						minimal("data message next D-H key", body[9:])
+					}
+				}
+			}
+			// the committed g^x: AES-CTR under r with a zero counter
+			for i := range commits {
+				if i >= len(rs) || len(rs[i]) != 16 {
+					continue
+				}
+				gx := make([]byte, len(commits[i]))
+				if counterEncipher(rs[i], make([]byte, 16), commits[i], gx) == nil {
+					if rest := minimal("D-H Commit g^x (decrypted with r)", gx); len(rest) != 0 {
+						x.bad("wire-mpi:commit-trailing", "decrypted g^x is followed by %d byte(s)", len(rest))
+					}
+				}
+			}
+		}
+	}
+}
+
 func verifC17Run(r *verifReport) {
-	r.Rule = "exhaustive small-domain enumeration, full products per structure: integers {0,1,7f,80,ff,100,2^64-1,2^64,p-1,p,2^1535}, byte strings of length {0,1,2,255,256,65535,65536} (with a leading zero byte), TLV types 0..9 × value lengths {0,1,2,255,256,65535}, TLV lists of length 0..3, texts up to 70000 bytes, SMP questions up to 70000 bytes; value→bytes→value equality, length prefixes equal content lengths, minimal MPIs; bytes→value→bytes on every input a parser accepts among all byte strings ≤ 6 over {00,01,7f,80,ff}; DSA keys derived to hit odd hex digit counts / short x / short y / zero bytes, wire form, fingerprint against an independent SHA-1 over the specification's layout, key file export→import with every account name ≤ 2 (thorough: 3) characters over a 12-character alphabet, 6-account (thorough: also 11 and 16) files with the first account name grown one character at a time over a whole entry length (every token slid over every 4096-byte reader boundary), and readers that return at most c bytes per call (10 sizes; thorough: every c ≤ 4200); non-trivial = non-empty / accepted"
+	r.Rule = "exhaustive small-domain enumeration, full products per structure: integers {0,1,7f,80,ff,100,2^64-1,2^64,p-1,p,2^1535}, byte strings of length {0,1,2,255,256,65535,65536} (with a leading zero byte), TLV types 0..9 × value lengths {0,1,2,255,256,65535}, TLV lists of length 0..3, texts up to 70000 bytes, SMP questions up to 70000 bytes; value→bytes→value equality, length prefixes equal content lengths, minimal MPIs; bytes→value→bytes on every input a parser accepts among all byte strings ≤ 6 over {00,01,7f,80,ff}; DSA keys derived to hit odd hex digit counts / short x / short y / zero bytes, wire form, fingerprint against an independent SHA-1 over the specification's layout, key file export→import with every account name ≤ 2 (thorough: 3) characters over a 12-character alphabet, 6-account (thorough: also 11 and 16) files with the first account name grown one character at a time over a whole entry length (every token slid over every 4096-byte reader boundary), and readers that return at most c bytes per call (10 sizes; thorough: every c ≤ 4200); every integer a running conversation emits (g^y, the g^x committed to, next D-H keys) is minimal, with the randomness source scripted to tiny exponents so that these are 1 to 192 bytes long; non-trivial = non-empty / accepted"
 	r.Assumptions = []string{"DSA keys share one parameter set (p,q,g); only x and y vary", "the encrypted-signature field is compared modulo its length prefix (the sender keeps it with, the parser returns it without)"}
 	x := &c17Run{r: r}
 	x.primitives()
@@ -718,6 +813,7 @@ func verifC17Run(r *verifReport) {
 	x.apiLengths(r.Seed)
 	x.keys(r.Seed, r.Tier == "thorough")
 	x.acceptedInputs()
+	x.wireIntegers(r.Seed)
 	r.Evals = x.evals
 	r.Nontrivial = x.nontr
 	r.sample(map[string]string{"structure": "dataMsg", "case": "flag=1 kid={0x80000000,2} y=2^1535 ctr=ffffffffffffffff enc=65536B keys=1"})
